@@ -218,6 +218,14 @@ def g_prims( ctx ):
             res.ok( asrc, f, '%s consumes %d symbol(s)' % ( qn, want ))
         else:
             res.bad( asrc, f, '%s calls next( source ) %d times' % ( qn, n ), 'the consumption summary assumes exactly %d' % want )
+    # state_input stores the symbol it consumed: <thing>.append( <the value of next( source )> ) under `if path and data is not None`
+    sip = asrc.get( 'state_input.process' )
+    from .core import Matcher
+    SM = Matcher()
+    if SM.find( sip, '_inp = next( source )' ) is not None and SM.find( sip, '_thing.append( _inp )' ) is not None:
+        res.ok( asrc, sip, 'state_input.process appends the consumed symbol to <path>.<context>.input' )
+    else:
+        res.bad( asrc, sip, 'state_input.process', 'the consumed symbol must be appended to the data artifact: every layout / round-trip rule assumes the parsed input is what was consumed' )
     for qn in ( 'state.run', 'state.transition', 'dfa_base.delegate', 'state_struct.terminate', 'string_base.terminate', 'integer_base.terminate' ):
         f = asrc.get( qn )
         if nexts( f ):
